@@ -6,6 +6,26 @@ HERE = os.path.dirname(os.path.dirname(os.path.abspath(__file__)))
 
 # id -> (technique, level text, level note, design ref)
 CHECKS = {
+ 'C07': ('metamorphic pairs (heights above the limit redrawn / replaced by non-detections) on Hypothesis scenes with the MSA placed on and around hit heights; crop reference model',
+         'Two transformed twins per case are run and compared bit-exactly with the original (tables; plus message and flag for the redraw twin); the flag and the kept rows are checked against an input-side crop model. Exploration: unbounded inputs.',
+         'Trusts the crop model and the bit-exact snapshot in vlib/observe.py.', '5/C07'),
+ 'C10': ('metamorphic pairs: index relabelling (incl. non-unique), column permutation, extra columns, exact dtype re-encodings, against the plain frame, bit-exact',
+         'Each generated case is run on the canonical frame and on a drawn equivalent variant; tables, messages, flag and positional per-hit assignments must be identical and the variant must not raise.',
+         'Only value-preserving dtype variants are generated (exact representability is tested before use).', '5/C10'),
+ 'C14': ('exhaustive DFS over all call sequences to depth 4/5 on three/four data sets + Hypothesis op sequences on generated scenes, against a stage model (reference model of the protocol)',
+         'The call tree (10 ops) is enumerated completely to the stated depth on data sets with merged groups, a split group and no hits; longer sequences on generated scenes are drawn by Hypothesis and shrunk. Every call is compared with the model verdict and the canonical stage snapshots.',
+         'Stage-relative comparison of the annotation columns (slices.isolated, groups.ncomp); deep copies in the DFS.', '5/C14'),
+ 'C15': ('Hypothesis defect injection over valid frames against a pure-Python screening model, both directions, with Hypothesis shrinking',
+         'Thousands of frames per run with combinations of the documented defects, near-misses, coercible dtype variants and layouts; accept/refuse must equal the model verdict, results are compared value by value, idempotence and argument immutability are checked.',
+         'Trusts the screening model in vlib/oracles.py (30 lines).', '5/C15'),
+ 'C16': ('metamorphic pairs under drawn bijective renamings (incl. order-reversing and confusable names) applied to frame and exclusion list, bit-exact',
+         'Original and renamed run are compared on the full snapshot with names mapped back.', 'Trusts the snapshot.', '5/C16'),
+ 'C18': ('exhaustive enumeration of (n, m) pairs, okta integers/types and a fine height grid with float neighbours of every coding boundary, against exact integer/rational models; Hypothesis for free floats',
+         'The bounded domains named in the statement are enumerated completely (n <= m <= 3000 quick / 8000 thorough; 0.25 / 0.05 ft grid), so within those bounds the property is decided.',
+         'Trusts the exact-arithmetic models; accepts both neighbours at exact x.5 ties.', '5/C18'),
+ 'C19': ('Hypothesis arrays x modes x kwargs with algebraic oracles (monotonicity, do/undo round trip, range, continuity, NaN blindness), Hypothesis shrinking',
+         'Thousands of arrays per run across the three scalings, with kwargs derived by the same helpers the plots use and a share routed through CeiloChunk.data_rescaled.',
+         'Tolerances as stated in RULE (1e-9 relative families).', '5/C19'),
  'C01': ('Hypothesis scene/parameter generation + validity predicate on the message string against the tables',
          'Thousands of generated (hit table, MSA/buffer/okta/separation) cases per run, every okta class and MSA position (incl. a base exactly at the MSA) reached by construction through exact-count scenes; each message at all three levels is checked against a format/ordering/ICAO-rank/selection predicate resolved against the tables. Exploration: the input space is unbounded and the pipeline contains third-party numerics, so absence of violations is evidence, not proof.',
          'Trusts the regex/predicate in vlib/props/c01.py; tables are used only to resolve which layer a group stands for.', '5/C01'),
